@@ -94,7 +94,9 @@ type plan struct {
 	Coalesce bool       `json:"coalesce"`
 	Order    int        `json:"order"`  // 0: client data first; 1: server speaks first
 	Duplex   bool       `json:"duplex"` // the four application-side activities run concurrently
-	Seed     uint64     `json:"seed"`
+	// EOFWithData: ReadFrom sources return their last chunk together with io.EOF
+	EOFWithData bool   `json:"eofWithData"`
+	Seed        uint64 `json:"seed"`
 }
 
 const maxChunk = 0xFFFF
@@ -212,6 +214,7 @@ func drawPlan(rt *rapid.T) (p plan, nearConst bool) {
 	p.Coalesce = rapid.Bool().Draw(rt, "coalesce")
 	p.Order = rapid.IntRange(0, 1).Draw(rt, "order")
 	p.Duplex = rapid.IntRange(0, 3).Draw(rt, "duplex") == 0
+	p.EOFWithData = rapid.Bool().Draw(rt, "eofWithData")
 	p.Seed = rapid.Uint64().Draw(rt, "seed")
 	return p, nearConst
 }
@@ -351,6 +354,7 @@ func runPlan(p plan) (res *outcome, labels []string) {
 		return o, nil
 	}
 
+	heldReqs := []netio.ConnRequest{reqA}
 	var appClient netio.Conn = connA
 	var appServer netio.Conn
 	var firstPayload []byte
@@ -410,12 +414,13 @@ func runPlan(p plan) (res *outcome, labels []string) {
 			return o, nil
 		}
 		firstPayload = bytes.Clone(reqB.Payload)
+		heldReqs = append(heldReqs, reqB)
 		appServer, _ = reqB.Proceed()
 	}
 
 	// ---- data phases (sequential on the application side; the transport never blocks writers)
 	upW := func() *outcome {
-		if err := writeAll(appClient, c2s, p.C2S, p.WPathC); err != nil {
+		if err := writeAll(appClient, c2s, p.C2S, p.WPathC, p.EOFWithData); err != nil {
 			return fail("C01/client-write-error", "%v", err)
 		}
 		return nil
@@ -432,7 +437,7 @@ func runPlan(p plan) (res *outcome, labels []string) {
 		return nil
 	}
 	downW := func() *outcome {
-		if err := writeAll(appServer, s2c, p.S2C, p.WPathS); err != nil {
+		if err := writeAll(appServer, s2c, p.S2C, p.WPathS, p.EOFWithData); err != nil {
 			return fail("C01/server-write-error", "%v", err)
 		}
 		return nil
@@ -475,6 +480,20 @@ func runPlan(p plan) (res *outcome, labels []string) {
 				return o, nil
 			}
 		}
+	}
+	// The request the server handed out must still name the client's target after the server
+	// connection has been written to (it must not alias a buffer the connection reuses).
+	for hop, req := range heldReqs {
+		want := target
+		if want.IsIP() {
+			want = conn.AddrFromIPAndPort(want.IP().Unmap(), want.Port())
+		}
+		if !req.Addr.Equals(want) {
+			return fail("C01/target-changed-after-traffic", "hop %d: request address reads %q after the data phases, client dialed %s", hop, req.Addr.String(), target), nil
+		}
+	}
+	if sum(p.S2C) > 0 {
+		labels = append(labels, "addr-rechecked-after-server-write")
 	}
 	for i := 0; i < relayN; i++ {
 		select {
@@ -575,7 +594,7 @@ var rec = ev.New("C01", "tunnel-ledger",
 		"checking address bytes, initial-payload split, padding bound, chunk sizes 1..65535 and plaintext equality. "+
 		"Non-trivial: bytes>0 both ways AND (a length within +-3 of a structural constant, or a read buffer smaller than a chunk, or a fragment boundary inside a length chunk, or relay topology). "+
 		"Distinct key: config class + topology + paths + order + boundary classes of payload/write lengths").
-	Require("relay", "eih>=2", "prefix>64KiB", "payload-over-room", "leftover-read", "frag-inside-length-chunk", "path-readfrom", "path-writeto", "server-first", "duplex", "multi-chunk", "not-segmented", "domain>=254")
+	Require("relay", "eih>=2", "prefix>64KiB", "payload-over-room", "leftover-read", "frag-inside-length-chunk", "path-readfrom", "path-writeto", "server-first", "duplex", "readfrom-source-eof-with-data", "addr-rechecked-after-server-write", "multi-chunk", "not-segmented", "domain>=254")
 
 func lenClass(n int) string {
 	switch {
@@ -634,6 +653,7 @@ func classify(p plan, near bool, extra []string) (labels []string, nt bool) {
 	add(p.RPathC == pathRF || p.RPathS == pathRF, "path-writeto")
 	add(p.Order == 1, "server-first")
 	add(p.Duplex, "duplex")
+	add(p.EOFWithData && (p.WPathC == pathRF && sum(p.C2S) > 0 || p.WPathS == pathRF && sum(p.S2C) > 0), "readfrom-source-eof-with-data")
 	add(!p.Cls.Segmented, "not-segmented")
 	add(p.Target.Kind == "domain" && p.Target.DomLen >= 254, "domain>=254")
 	add(p.Target.Kind == "v4mapped", "v4mapped")
